@@ -1,7 +1,8 @@
 """C16 - arc moves are sampled faithfully (algebraic / structural skeleton of planArc and the radius form)."""
 import ast
 
-from .entries import make_interp, new_handlers_state
+from .entries import make_interp, new_handlers_state, axis_logical
+from .handlers import run_path_rules
 from .pathfacts import live_alts, S_OID
 from .values import NONE, Num, Str, SStr, Cat, Obj, TupleV, Opaque, Choice, vkey
 from .absint import Raised
@@ -20,6 +21,10 @@ def declare(c):
     c.rule('C16.R4c', 'theta = atan2(cross, dot) of the radius vectors centre->start and centre->end', floor=2)
     c.rule('C16.R5', 'density: n = max(1, ceil(|travel| * R / K)) with a constant K <= 1 (samples at most one unit apart)', floor=2)
     c.rule('C16.R6', 'radius form: the computed centre is at distance |R| from both end points', floor=1)
+    c.rule('C16.R8', 'handler wiring: planArc receives the end point from the X/Y words (the current logical position where '
+                     'a word is absent), the centre offsets from the I/J words of this command (0 where absent) or from '
+                     'computeArcCenterOffsets(x, y, R, clockwise) in the radius form, clockwise exactly for G2; the points '
+                     'handed to processLinearMoves are planArc\'s result, in order', floor=100)
     c.rule('C16.R7', 'no path of planArc / computeArcCenterOffsets raises', floor=4)
 
 
@@ -320,8 +325,106 @@ def rewrite(I, e):
     return e
 
 
+def wiring_paths(col, gcode, paths, I):
+    declare(col)
+    from .pathfacts import Facts, CMDKEY
+    from .values import vkey, TupleV
+    where = 'GcodeHandlers._handle_G2'
+    for p in paths:
+        f = Facts(p, I)
+        if f.raised:
+            continue
+        st = p.st
+        calls = dict(((e[3], e[2]), dict(e[4])) for e in st.trace if e[0] == 'modular-call')
+        rets = dict(((e[3], e[2]), e[4]) for e in st.trace if e[0] == 'modular-ret')
+        plm = [dict(e[3]) for e in st.trace if e[0] == 'args' and e[2] == 'processLinearMoves']
+        pa = calls.get(('planArc', 0))
+        if pa is None:
+            continue
+        col.instance('C16.R8', (gcode, f.describe(), tuple(f.decisions()[-4:])))
+        detail = {'entry': p.entry, 'decisions': f.decisions()[-8:]}
+        names = list(pa)
+        if len(names) != 5 or ('planArc', 1) in calls:
+            col.report('C16.R8', where, 'planArc called with %d arguments / more than once' % len(names),
+                       'the handler wiring is not the reviewed one (end point, centre offsets, direction)', detail=detail)
+            continue
+        ex, ey, ei, ej, ecw = [pa[n] for n in names]
+
+        def alts(v, assume=None):
+            return live_alts(st, v, assume)
+
+        def pkey(letter):
+            return ('param', CMDKEY, letter)
+        # direction
+        for a in alts(ecw):
+            if a is not (gcode == 'G2'):
+                col.report('C16.R8', where, '%s: clockwise=%r' % (gcode, a), 'G2 is the clockwise arc, G3 the counter-clockwise one',
+                           detail=detail)
+        # end point
+        for v, letter, axn in ((ex, 'X', 'X_AXIS'), (ey, 'Y', 'Y_AXIS')):
+            want_abs = axis_logical(I, '%s.position.%s' % (S_OID, axn))
+            for status, want in ((frozenset(['V']), Poly.sym('p:%s' % letter)), (frozenset(['A', 'F']), want_abs)):
+                if not (f.pstatus(letter) & status):
+                    continue
+                for a in alts(v, {pkey(letter): status}):
+                    if not (isinstance(a, Num) and a.p == want):
+                        col.report('C16.R8', where, '%s: end point %s = %r' % (gcode, letter, getattr(a, 'p', a)),
+                                   'the arc end point handed to planArc must be the %s word (or the current logical position '
+                                   'when the word is absent): expected %r' % (letter, want), detail=detail)
+        # centre offsets
+        cc = calls.get(('computeArcCenterOffsets', 0))
+        rvalued = 'V' in f.pstatus('R') and f.pstatus('R') == frozenset(['V'])
+        if cc is not None:
+            cn = list(cc)
+            ret = rets.get(('computeArcCenterOffsets', 0))
+            if len(cn) != 4 or ret is None or len(ret) != 2:
+                col.report('C16.R8', where, 'computeArcCenterOffsets wiring', 'unexpected arguments / result', detail=detail)
+            else:
+                for (got, want, what) in ((cc[cn[0]], ex, 'x'), (cc[cn[1]], ey, 'y'), (cc[cn[3]], ecw, 'clockwise')):
+                    if vkey(got) != vkey(want):
+                        col.report('C16.R8', where, 'radius form: %s differs between computeArcCenterOffsets and planArc' % what,
+                                   'the centre is computed for another end point / direction than the arc that is sampled', detail=detail)
+                for a in alts(cc[cn[2]], {pkey('R'): frozenset(['V'])}):
+                    if not (isinstance(a, Num) and a.p == Poly.sym('p:R')):
+                        col.report('C16.R8', where, 'radius form: radius = %r' % (getattr(a, 'p', a),),
+                                   'the radius handed to computeArcCenterOffsets must be the R word', detail=detail)
+                for got, want, what in ((ei, ret[0], 'i'), (ej, ret[1], 'j')):
+                    if [vkey(a) for a in alts(got)] != [vkey(want)]:
+                        col.report('C16.R8', where, 'radius form: %s is not the computed offset' % what,
+                                   'planArc must receive the centre offsets returned by computeArcCenterOffsets', detail=detail)
+            if 'V' not in f.pstatus('R'):
+                col.report('C16.R8', where, 'radius form without R word', 'the centre is computed from a radius although the '
+                           'command carries no R value', detail=detail)
+        else:
+            if rvalued:
+                col.report('C16.R8', where, 'R word ignored', 'the command carries a radius but the centre is not computed from it',
+                           detail=detail)
+            for v, letter in ((ei, 'I'), (ej, 'J')):
+                for status, want in ((frozenset(['V']), Poly.sym('p:%s' % letter)), (frozenset(['A', 'F']), Poly.const(0))):
+                    if not (f.pstatus(letter) & status):
+                        continue
+                    for a in alts(v, {pkey(letter): status}):
+                        if not (isinstance(a, Num) and a.p == want):
+                            col.report('C16.R8', where, '%s: centre offset %s = %r' % (gcode, letter, getattr(a, 'p', a)),
+                                       'the centre offset handed to planArc must be the %s word of this command (0 when the word '
+                                       'is absent): expected %r' % (letter, want), detail=detail)
+        # the sampled points are what is tested
+        ret = rets.get(('planArc', 0))
+        if not plm:
+            col.report('C16.R8', where, 'arc planned but not processed', 'planArc\'s points never reach processLinearMoves',
+                       detail=detail)
+        elif ret is not None:
+            args = plm[0]
+            var = [v for k, v in args.items() if isinstance(v, TupleV)]
+            got = var[0].elems if var else ()
+            if [vkey(x) for x in got] != [vkey(x) for x in ret]:
+                col.report('C16.R8', where, 'points handed to processLinearMoves differ from planArc\'s result',
+                           'the region test must see every sampled point, in order, ending with the end point', detail=detail)
+
+
 def run(ctx, tier):
     declare(ctx)
+    run_path_rules(ctx, __name__, 'wiring_paths', ['G2', 'G3'], unroll=1)
     I = make_interp(ctx.model, unroll=4 if tier == 'thorough' else 3, modular=False)
     plan_rules(ctx, I)
     I2 = make_interp(ctx.model, modular=False)
